@@ -444,3 +444,38 @@ def c16(run):
     path = drive_ops(run, "c16")
     validate_trace(run, "CelOpTrace", path, sample_key=op_sample, nontrivial=lambda c: True,
                    what="timestamp: instant / calendar field / rendering / arithmetic differs from the CelTime specification")
+
+
+# ----------------------------------------------------------------------------------------------
+# C17 / C18
+
+@check("C17")
+def c17(run):
+    run.rule = ("model: CelDataMC -- every serde term of nesting depth <=2 over 13 leaf kinds and all 12 compound constructors is a state: Shape (signed->int, unsigned->uint, "
+                "sequences/tuples->lists of the same length, structs/maps->maps with those keys, data-carrying variants->single-entry maps, options->value or null), "
+                "KeysStrict, and for every JSON document of depth <=2 Export(Import(doc)) = doc; impl->spec: seeded random terms (depth<=5) built from a dynamic Term whose "
+                "Serialize impl calls exactly the named Serializer method (every integer width at its extremes, NaN/inf, non-ASCII, nested options, every key kind, "
+                "wrong-order map protocol, the private Duration/Timestamp marker names with proper and foreign content) through to_value and Context::add_variable; "
+                "the commuting square json(to_value(t)) = serde_json::to_value(t) on JSON-representable terms; random serde_json documents; non-trivial = compound term")
+    model_check(run, "CelDataMC", workers=8)
+    run.exhaustive = True
+    path = drive_ops(run, "c17")
+    validate_trace(run, "CelDataTrace", path, nontrivial=lambda c: any(k in c["a"] for k in ("e", "x", "f", "m")),
+                   sample_key=lambda c: {"op": c["op"], "term_or_doc": c["a"], "out": c["out"]},
+                   what="host data conversion: panic, wrong shape, or converting-then-exporting differs from serde_json")
+
+
+@check("C18")
+def c18(run):
+    run.rule = ("model: CelDataMC -- every CEL value of nesting depth <=2 over 14 leaf kinds (functions, in- and out-of-range durations, NaN, bytes, timestamps, colliding "
+                "key texts 1 / 1u / '1' / true / 'true'): Total (export is a document or an error, an error iff an excluded value occurs) and RoundTrip "
+                "(Import(Export(v)) == v on JSON-native values with text-distinct keys); impl->spec: seeded random values of every kind to depth 5 (functions nested in "
+                "collections, durations on both sides of +-2^63 ns, NaN/inf, empty collections, colliding keys): json() must equal Export (base64, RFC 3339 text "
+                "denoting the instant, nanosecond counts, null for non-finite) or the matching error, and to_value(json(v)) == v on the JSON-native fragment; "
+                "non-trivial = collection, bytes, timestamp or duration")
+    model_check(run, "CelDataMC", workers=8)
+    run.exhaustive = True
+    path = drive_ops(run, "c18")
+    validate_trace(run, "CelDataTrace", path, nontrivial=lambda c: c["a"]["t"] in ("list", "map", "bytes", "ts", "dur"),
+                   sample_key=lambda c: {"value": c["a"], "out": c["out"]},
+                   what="JSON export: panic, wrong document, wrong error, or import(export(v)) != v")
